@@ -6,6 +6,9 @@ import Mhd.Proofs.FramingDecode
 namespace Mhd.Framing
 open Mhd.Gen.Framing Framer
 
+set_option linter.unusedSectionVars false
+variable [P : HeadParser] [L : LawfulHeadParser]
+
 /-! ### pipelined streams of generated requests -/
 
 /-- body of a generated request -/
@@ -34,15 +37,15 @@ def Msg.bytes (m : Msg) : Bytes := m.headBytes ++ m.body.bytes
 def Msg.seen (m : Msg) : Seen := ⟨m.head.method, m.head.target, m.body.data⟩
 
 /-- a generated request that is valid at level `lvl`, keeps the connection alive and is rendered
-    with a canonical head -/
+    whose head bytes the head parser accepts (delivering `m.head`: any method, target, field list) -/
 structure MsgOK (lvl : Int) (m : Msg) : Prop where
-  canonical : parseHead m.headBytes = .ok m.head []
+  headOK : P.head m.headBytes = .ok m.head []
   framing :
     match m.body with
     | .none => decideBody lvl m.head.http11 m.head.fields = .none ∨ decideBody lvl m.head.http11 m.head.fields = .len 0
     | .identity d => d ≠ [] ∧ decideBody lvl m.head.http11 m.head.fields = .len d.length
     | .chunked cs last tr => decideBody lvl m.head.http11 m.head.fields = .chunked false ∧
-        (∀ c ∈ cs, ChunkOK lvl c) ∧ LastOK lvl last ∧ ∃ fs, parseTrailers tr = .ok fs []
+        (∀ c ∈ cs, ChunkOK lvl c) ∧ LastOK lvl last ∧ ∃ fs, P.trailers tr = .ok fs []
   noClose : lookupToken m.head.fields hdrConnection tokClose = false
   keep : m.head.http11 = true ∨ lookupToken m.head.fields hdrConnection tokKeepAlive = true
 
@@ -88,18 +91,16 @@ theorem steps_reply (lvl : Int) (app : App) (i st : Nat) (o : List Ev) (rest : B
     rfl
   exact Steps.head e1 (Steps.head e2 (Steps.one e3))
 
-theorem parseTrailers_append (tr e : Bytes) (fs : List Field) (r : Bytes) (h : parseTrailers tr = .ok fs r) :
-    parseTrailers (tr ++ e) = .ok fs (r ++ e) := by
-  unfold parseTrailers at h ⊢
-  exact takeFields_append _ _ tr e fs r h (by simp)
+theorem parseTrailers_append (tr e : Bytes) (fs : List Field) (r : Bytes) (h : P.trailers tr = .ok fs r) :
+    P.trailers (tr ++ e) = .ok fs (r ++ e) := L.trailers_append tr e fs r h
 
 /-- one complete valid request from a fresh connection state back to a fresh connection state -/
 theorem steps_request (lvl : Int) (app : App) (i st : Nat) (o : List Ev) (m : Msg) (rest : Bytes)
     (hm : MsgOK lvl m) (happ : app i = .cont st false) :
     Steps lvl app (fresh i o (m.bytes ++ rest)) (fresh (i + 1) (msgEvents m st ++ o) rest) := by
   obtain ⟨hcan, hfr, hnc, hk⟩ := hm
-  have hp : parseHead (m.bytes ++ rest) = .ok m.head (m.body.bytes ++ rest) := by
-    have := parseHead_append m.headBytes (m.body.bytes ++ rest) m.head [] hcan
+  have hp : P.head (m.bytes ++ rest) = .ok m.head (m.body.bytes ++ rest) := by
+    have := L.head_append m.headBytes (m.body.bytes ++ rest) m.head [] hcan
     simpa [Msg.bytes, List.append_assoc] using this
   cases hb : m.body with
   | none =>
@@ -275,7 +276,7 @@ theorem framesOfAux_pipeline (app : App) (ms : List Msg) (i : Nat) :
     simp only [pipelineEvents, List.reverse_append, List.map_cons]
     rw [framesOfAux_msg, ih]
 
-/-- **pipelined streams**: a stream made of valid generated requests (canonical heads, any
+/-- **pipelined streams**: a stream made of valid generated requests (heads accepted by the head parser, any
     admissible chunking) is split into exactly those requests — same methods, targets and body
     bytes, in order — whatever the strictness level and however the bytes are segmented into reads -/
 theorem pipeline_frames (lvl : Int) (app : App) (ms : List Msg) (segs : List Bytes)
@@ -287,7 +288,7 @@ theorem pipeline_frames (lvl : Int) (app : App) (ms : List Msg) (segs : List Byt
   simp only [List.append_nil, Nat.zero_add] at hst
   have hidle := idle_of_steps lvl app _ _ hst (by simp [ChunkWF, fresh])
   have hq : idleStep lvl app (fresh ms.length (pipelineEvents app 0 ms) []) = none := by
-    unfold idleStep; rfl
+    unfold idleStep; simp only [fresh, L.head_nil]
   have hrun : runSegs lvl app segs = fresh ms.length (pipelineEvents app 0 ms) [] := by
     rw [runSegs_flatten, hsegs]
     unfold runSegs
